@@ -84,3 +84,27 @@ PROPS["C12"] = {
     },
 }
 
+
+PROPS["C09"] = {
+    "level": "model_checking",
+    "kani": [{"package": "boa_gc", "flags": [], "tags": ["c09a", "c09b"]}],
+    "assumptions": COMMON_ASSUME + [
+        "inductive step: the pre-state is ANY header satisfying Inv (non_root_count <= ref_count <= 2^31-1), so histories of any length are covered for the header arithmetic only",
+        "dec_ref_count preserves Inv only when the object is rooted (rc > non_root_count); a finalizer dropping an in-heap handle mid-collection is outside this precondition",
+    ],
+    "outside_claim": [
+        "Collector::collect, mark_heap, the ephemeron fix-point, weak maps, finalizer resurrection, sweep: every one allocates a GcBox, which Kani 0.68 cannot compile (TypeId in the GC vtable const, DESIGN.md §2.3). The graph-shaped quantifier of C09 is NOT addressed.",
+    ],
+    "trusted_base": [],
+    "manifest": {
+        "text": "Model checking of the two pure kernels the collector's correctness rests on: (1) GcHeader, as a one-step inductive "
+                "invariant from an arbitrary valid header (all 2^64 raw (ref_count, non_root_count|mark) pairs satisfying Inv) under "
+                "each of its 6 operations: counts change exactly as specified, the mark bit never leaks into the count, "
+                "is_rooted <=> non_root_count < ref_count, saturation instead of overflow; (2) GcRefCell's borrow flag from an "
+                "arbitrary flag value: shared XOR exclusive, guards restore the flag, reader overflow panics. "
+                "This is a kernel-level claim only; the collector itself cannot be encoded with the installed tools.",
+        "note": "Trusted: Kani/CBMC. Outside (explicitly): the mark/sweep/ephemeron algorithm over heap graphs - not decided by this check.",
+        "technique": "bounded model checking (Kani/CBMC, SAT) of one inductive step from an arbitrary symbolic pre-state",
+        "design_ref": "DESIGN.md §4 C09",
+    },
+}
